@@ -276,3 +276,81 @@ package ring
 //@   ensures  empty: len(r.ringTokens) == 0 ==> r1 == ErrEmptyRing
 //@   ensures  slack: r1 == nil ==> r0.MaxErrors >= 0 && r0.MaxErrors <= len(r0.Instances) - (max(r.cfg.ReplicationFactor, 0) / 2 + 1) && len(r0.Instances) >= 1
 //@   modifies nothing
+//@
+//@ # ---- C14, partition ring: the ranges reported for a partition contain a key exactly when the token lookup assigns it ----
+//@ # pOwner: the partition that owns the first ring token strictly after the key (wrapping), as ActivePartitionForKey reads it
+//@ opaque pure func pOwner(r PartitionRing, k uint32) int32 = r.ringPartitionIDs[searchToken(r.ringTokens, k)]
+//@ # representation: the partition's own token list is strictly sorted and is exactly the set of ring tokens mapped to it
+//@ # (ptIdx / pjIdx are the index witnesses in both directions)
+//@ pure func ptIdx(r PartitionRing, pid int32, j int) int
+//@ pure func pjIdx(r PartitionRing, pid int32, i int) int
+//@ pred partRep(r PartitionRing, pid int32) = prRep(r) && sortedStrict(r.desc.Partitions[pid].Tokens) &&
+//@      (forall j int :: 0 <= j && j < len(r.desc.Partitions[pid].Tokens) ==> 0 <= ptIdx(r, pid, j) && ptIdx(r, pid, j) < len(r.ringTokens) &&
+//@           r.ringTokens[ptIdx(r, pid, j)] == r.desc.Partitions[pid].Tokens[j] && r.ringPartitionIDs[ptIdx(r, pid, j)] == pid) &&
+//@      (forall i int :: 0 <= i && i < len(r.ringTokens) && r.ringPartitionIDs[i] == pid ==> 0 <= pjIdx(r, pid, i) && pjIdx(r, pid, i) < len(r.desc.Partitions[pid].Tokens) &&
+//@           r.desc.Partitions[pid].Tokens[pjIdx(r, pid, i)] == r.ringTokens[i])
+//@
+//@ # coversA: covers as a predicate symbol (usable as an instantiation trigger); same definition
+//@ pred coversA(tr []uint32, k uint32) = exists j int :: pairCovers(tr, j, k)
+//@ lemma addRangeCovers(r []uint32, r2 []uint32, start uint32, end uint32)
+//@   property C14
+//@   ensures len(r) % 2 == 0 && start <= end && (forall j int :: 0 <= j && 2*j+1 < len(r) ==> r[2*j] <= r[2*j+1]) &&
+//@           ((len(r2) == len(r) + 2 && (forall i int :: 0 <= i && i < len(r) ==> r2[i] == r[i]) && r2[len(r)] == start && r2[len(r)+1] == end) ||
+//@            (len(r) > 0 && len(r2) == len(r) && start >= 1 && r[len(r)-1] == start - 1 && (forall i int :: 0 <= i && i < len(r) - 1 ==> r2[i] == r[i]) && r2[len(r)-1] == end)) ==>
+//@           (forall k uint32 :: coversA(r2, k) <==> (coversA(r, k) || (start <= k && k <= end)))
+//@   proof
+//@   assert len(r) % 2 == 0 && start <= end && len(r2) == len(r) + 2 && (forall i int :: 0 <= i && i < len(r) ==> r2[i] == r[i]) && r2[len(r)] == start && r2[len(r)+1] == end ==>
+//@           (forall k uint32, j int :: pairCovers(r, j, k) ==> pairCovers(r2, j, k)) &&
+//@           (forall k uint32, j int :: pairCovers(r2, j, k) ==> (2*j+1 < len(r) ? pairCovers(r, j, k) : (start <= k && k <= end))) &&
+//@           (forall k uint32 :: start <= k && k <= end ==> pairCovers(r2, len(r)/2, k))
+//@   assert len(r) % 2 == 0 && start <= end && len(r) > 0 && len(r2) == len(r) && start >= 1 && r[len(r)-1] == start - 1 && (forall j int :: 0 <= j && 2*j+1 < len(r) ==> r[2*j] <= r[2*j+1]) && (forall i int :: 0 <= i && i < len(r) - 1 ==> r2[i] == r[i]) && r2[len(r)-1] == end ==>
+//@           (forall k uint32, j int :: pairCovers(r, j, k) ==> pairCovers(r2, j, k)) &&
+//@           (forall k uint32, j int :: pairCovers(r2, j, k) ==> (pairCovers(r, j, k) || (start <= k && k <= end))) &&
+//@           (forall k uint32 :: start <= k && k <= end ==> pairCovers(r2, len(r)/2 - 1, k))
+//@   assert len(r) % 2 == 0 && start <= end && len(r2) == len(r) + 2 && (forall i int :: 0 <= i && i < len(r) ==> r2[i] == r[i]) && r2[len(r)] == start && r2[len(r)+1] == end ==>
+//@           (forall k uint32, j int :: pairCovers(r, j, k) ==> coversA(r2, k))
+//@   assert len(r) % 2 == 0 && start <= end && len(r2) == len(r) + 2 && (forall i int :: 0 <= i && i < len(r) ==> r2[i] == r[i]) && r2[len(r)] == start && r2[len(r)+1] == end ==>
+//@           (forall k uint32, j int :: pairCovers(r2, j, k) ==> (coversA(r, k) || (start <= k && k <= end)))
+//@   assert len(r) % 2 == 0 && start <= end && len(r2) == len(r) + 2 && (forall i int :: 0 <= i && i < len(r) ==> r2[i] == r[i]) && r2[len(r)] == start && r2[len(r)+1] == end ==>
+//@           (forall k uint32 :: start <= k && k <= end ==> coversA(r2, k))
+//@   assert len(r) % 2 == 0 && start <= end && len(r) > 0 && len(r2) == len(r) && start >= 1 && r[len(r)-1] == start - 1 && (forall j int :: 0 <= j && 2*j+1 < len(r) ==> r[2*j] <= r[2*j+1]) && (forall i int :: 0 <= i && i < len(r) - 1 ==> r2[i] == r[i]) && r2[len(r)-1] == end ==>
+//@           (forall k uint32, j int :: pairCovers(r, j, k) ==> coversA(r2, k))
+//@   assert len(r) % 2 == 0 && start <= end && len(r) > 0 && len(r2) == len(r) && start >= 1 && r[len(r)-1] == start - 1 && (forall j int :: 0 <= j && 2*j+1 < len(r) ==> r[2*j] <= r[2*j+1]) && (forall i int :: 0 <= i && i < len(r) - 1 ==> r2[i] == r[i]) && r2[len(r)-1] == end ==>
+//@           (forall k uint32, j int :: pairCovers(r2, j, k) ==> (coversA(r, k) || (start <= k && k <= end)))
+//@   assert len(r) % 2 == 0 && start <= end && len(r) > 0 && len(r2) == len(r) && start >= 1 && r[len(r)-1] == start - 1 && (forall j int :: 0 <= j && 2*j+1 < len(r) ==> r[2*j] <= r[2*j+1]) && (forall i int :: 0 <= i && i < len(r) - 1 ==> r2[i] == r[i]) && r2[len(r)-1] == end ==>
+//@           (forall k uint32 :: start <= k && k <= end ==> pairCovers(r2, len(r)/2 - 1, k) && coversA(r2, k))
+//@
+//@ func PartitionRing.GetTokenRangesForPartition
+//@   property C14
+//@   # (a ring without any token assigns no key to anybody: lookups fail before they consult the token arrays)
+//@   requires in(partitionID, r.desc.Partitions) ==> partRep(r, partitionID) && len(r.ringTokens) > 0
+//@   ghost var T0 []uint32 = r.ringTokens
+//@   ghost var P0 []uint32 = get(r.desc.Partitions, partitionID).Tokens
+//@   ghost var own set[uint32] = setof k uint32 :: pOwner(r, k) == partitionID
+//@   ghost var cov set[uint32] = emptyset(0)
+//@   ghost var prevr []uint32 = r.ringTokens[0:0]
+//@   ghost var off int = 0
+//@   ensures  shape: r1 == nil ==> len(r0) % 2 == 0 && sortedNS(r0)
+//@   ensures  exact: r1 == nil ==> (forall k uint32 :: covers(r0, k) <==> pOwner(r, k) == partitionID)
+//@   at before@addRange: prevr := ranges
+//@   at after@addRange: assert grown: len(prevr) % 2 == 0 && $a0 <= $a1 && (forall j int :: 0 <= j && 2*j+1 < len(prevr) ==> prevr[2*j] <= prevr[2*j+1]) &&
+//@           ((len(ranges) == len(prevr) + 2 && (forall i int :: 0 <= i && i < len(prevr) ==> ranges[i] == prevr[i]) && ranges[len(prevr)] == $a0 && ranges[len(prevr)+1] == $a1) ||
+//@            (len(prevr) > 0 && len(ranges) == len(prevr) && $a0 >= 1 && prevr[len(prevr)-1] == $a0 - 1 && (forall i int :: 0 <= i && i < len(prevr) - 1 ==> ranges[i] == prevr[i]) && ranges[len(prevr)-1] == $a1))
+//@   at after@addRange: use addRangeCovers(prevr, ranges, $a0, $a1)
+//@   at after@addRange: cov := setrange(cov, $a0, $a1)
+//@   loop 0 end off := off + ix
+//@   loop 0 invariant same(r, old(r)) && same(partition.Tokens, P0) && same($coll, P0) && in(partitionID, r.desc.Partitions)
+//@   loop 0 invariant suffix: 0 <= off && off + len(ringTokens) == len(T0) && (forall a int :: 0 <= a && a < len(ringTokens) ==> ringTokens[a] == T0[off+a])
+//@   loop 0 invariant anchor: ($i == 0 ==> off == 0) && ($i > 0 ==> len(ringTokens) > 0 && ringTokens[0] == P0[$i-1])
+//@   loop 0 invariant link: forall k uint32 :: cov[k] <==> coversA(ranges, k)
+//@   loop 0 invariant pairs: len(ranges) % 2 == 0 && sortedNS(ranges) && (forall j int :: 0 <= j && 2*j+1 < len(ranges) ==> ranges[2*j] <= ranges[2*j+1]) && (len(ranges) > 0 ==> $i > 0 && ranges[len(ranges)-1] == P0[$i-1] - 1)
+//@   loop 0 invariant below: forall k uint32 :: cov[k] ==> $i > 0 && k < P0[$i-1]
+//@   loop 0 invariant exactbelow: forall k uint32 :: $i > 0 && k < P0[$i-1] ==> (cov[k] <==> own[k])
+//@   loop 0 invariant last: (ownsLastRange <==> ($i > 0 && P0[0] == T0[0])) && (ownsLastRange ==> startOfLastRange == T0[len(T0)-1])
+//@   at exit: assert none: r1 == nil && len(P0) == 0 ==> (forall k uint32 :: !own[k])
+//@   at exit: assert gap: r1 == nil && len(P0) > 0 ==> (forall k uint32 :: k >= P0[len(P0)-1] && k < T0[len(T0)-1] ==> !own[k])
+//@   at exit: assert wrapped: r1 == nil && len(P0) > 0 ==> (forall k uint32 :: k >= T0[len(T0)-1] ==> (own[k] <==> P0[0] == T0[0]))
+//@   at exit: assert covlast: r1 == nil && len(P0) > 0 ==> (forall k uint32 :: k >= P0[len(P0)-1] ==> (cov[k] <==> (P0[0] == T0[0] && k >= T0[len(T0)-1])))
+//@   at exit: assert all: r1 == nil ==> (forall k uint32 :: cov[k] <==> own[k])
+//@   at exit: assert linked: r1 == nil ==> (forall k uint32 :: cov[k] <==> coversA(r0, k))
+//@   at exit: assert exactA: r1 == nil ==> (forall k uint32 :: coversA(r0, k) <==> pOwner(r, k) == partitionID)
